@@ -354,11 +354,100 @@ Proof.
         rewrite gtb_false in Ds by (apply align_within; [lia|exact Hmod]).
         cbn [dbind] in Ds.
         destruct f as [|f']; [lia|].
-        rewrite seek_realign in Ds by (try lia; apply align_within; [lia|exact Hmod]).
+        rewrite seek_realign in Ds by (first [lia | apply align_within; [lia|exact Hmod]]).
         specialize (D2 (pre ++ b1) post ltac:(rewrite blen_app; lia)).
         rewrite <- Hb2 in D2. fold buf in D2.
         specialize (D2 Hmod Hpost (S f') pid ltac:(lia) Hpid).
         rewrite Ds. destruct D2 as [D2a D2b]. split.
         -- intros [Hc | Hc]; [congruence|]. exact (D2a Hc).
         -- intros Hn. apply D2b. intros Hc. apply Hn. now right.
+Qed.
+
+(* ------------------------------------------------------------------ the structure *)
+Lemma keys_lookup : forall {A} (d : list (Z * A)) k, In k (keys d) -> lookup k d <> None.
+Proof.
+  induction d as [|[k' v'] t IH]; intros k H; [destruct H|].
+  cbn [keys map fst] in H. cbn [lookup]. destruct (Z.eqb_spec k k'); [discriminate|].
+  destruct H as [H|H]; [congruence|]. now apply IH.
+Qed.
+Lemma lookup_not_key : forall {A} (d : list (Z * A)) k, ~ In k (keys d) -> lookup k d = None.
+Proof.
+  induction d as [|[k' v'] t IH]; intros k H; [reflexivity|].
+  cbn [keys map fst] in H. cbn [lookup]. destruct (Z.eqb_spec k k') as [->|Hne].
+  - exfalso. apply H. now left.
+  - apply IH. intros Hc. apply H. now right.
+Qed.
+
+Theorem mstruct_decodes : forall E ms1 ms2 d,
+  whyp E ms2 d ->
+  (forall mt1 mt2, In mt1 ms1 -> In mt2 ms2 -> m_id (fst mt1) = m_id (fst mt2) -> snd mt1 = snd mt2) ->
+  (forall mt1, In mt1 ms1 -> 0 <= m_id (fst mt1) < 65536) ->
+  forall pos, 0 <= pos -> exists bs,
+    ser_mstruct V2 E (cvS V2 E ms2) d pos = Ok (bs, pos + blen bs) /\
+    forall pre kz, blen pre = pos -> 0 <= kz < 4 -> blen (pre ++ bs ++ zeros kz) mod 4 = 0 ->
+      exists p', des_mstruct V2 E (pre ++ bs ++ zeros kz) (cvD V2 E (pre ++ bs ++ zeros kz) ms1) pos
+                 = DOk (ins ms1 d []) p'.
+Proof.
+  intros E ms1 ms2 d HW Hty Hid1 pos Hpos.
+  unfold ser_mstruct, ser_dheader. cbv zeta.
+  set (pad := enc_align V2 4 pos).
+  assert (Hpadlen : blen pad = padlen pos 4).
+  { unfold pad, enc_align. cbn [maxalign]. change (Z.min 4 4) with 4.
+    apply blen_zeros. pose proof (padlen_range pos 4 ltac:(lia)). lia. }
+  pose proof (padlen_range pos 4 ltac:(lia)) as Hpr.
+  pose proof (padlen_aligned pos 4 ltac:(lia)) as Hpa.
+  set (s := pos + blen pad + 4).
+  assert (Hs0 : 0 <= s) by (unfold s; lia).
+  assert (Hs4 : s mod 4 = 0) by (unfold s; rewrite Hpadlen; lia).
+  destruct (seek_list E ms2 d HW (keys d) s Hs0 (keys_lookup d)) as [bb [E1 [Hlen D1]]].
+  pose proof (blen_nonneg bb) as Hbb.
+  set (z := wrap_u32 (blen bb)).
+  assert (Hz : 0 <= z <= u32_max) by (unfold z, wrap_u32, two32, u32_max; lia).
+  destruct (rt_u32 V2 E z Hz pos Hpos) as [hb [E2 D2]].
+  assert (Hhb : hb = pad ++ int_enc E 4 z) by (unfold ser_prim, ret in E2; inversion E2; reflexivity).
+  subst hb.
+  exists (pad ++ int_enc E 4 z ++ bb). split.
+  - rewrite E1. cbn [bind]. f_equal. f_equal. rewrite !blen_app, int_enc_blen. unfold s. lia.
+  - intros pre kz Hpre Hkz Hmod.
+    set (buf := pre ++ (pad ++ int_enc E 4 z ++ bb) ++ zeros kz) in *.
+    assert (Hbuf0 : buf = pre ++ (pad ++ int_enc E 4 z) ++ (bb ++ zeros kz))
+      by (unfold buf; now rewrite <- !app_assoc).
+    assert (Hbuf1 : buf = (pre ++ pad ++ int_enc E 4 z) ++ bb ++ zeros kz)
+      by (unfold buf; now rewrite <- !app_assoc).
+    assert (Hl1 : blen (pre ++ pad ++ int_enc E 4 z) = s)
+      by (rewrite !blen_app, int_enc_blen; unfold s; lia).
+    assert (HB : s <= blen buf).
+    { rewrite Hbuf1, blen_app, Hl1. pose proof (blen_nonneg (bb ++ zeros kz)). lia. }
+    assert (Hdh : des_prim V2 E buf KU32 pos = DOk z s).
+    { rewrite Hbuf0. rewrite (D2 pre _ Hpre). rewrite blen_app, int_enc_blen. f_equal. unfold s. lia. }
+    unfold des_mstruct. rewrite Hdh. cbn [dbind].
+    specialize (D1 (pre ++ pad ++ int_enc E 4 z) (zeros kz) Hl1).
+    rewrite <- Hbuf1 in D1. specialize (D1 Hmod ltac:(rewrite blen_zeros; lia)).
+    assert (Hfuel : (length (keys d) < fuel0 buf)%nat).
+    { unfold fuel0. assert (Z.of_nat (length (keys d)) <= Z.of_nat (length buf)); [|lia].
+      fold (blen buf). rewrite Hbuf1, blen_app, Hl1, blen_app. pose proof (blen_nonneg (zeros kz)). lia. }
+    assert (Hmem : forall l acc, incl l ms1 ->
+              des_members V2 E buf (cvD V2 E buf l) acc s = DOk (ins l d acc) s).
+    { induction l as [|mt1 r IH]; intros acc Hincl; [reflexivity|].
+      cbn [cvD map des_members]. unfold des_mmember, des_mmember2. cbn [fst snd].
+      unfold dec_align. change (Z.min 4 4) with 4. rewrite (padlen_zero s 4) by lia.
+      unfold seek at 1. rewrite gtb_false by lia. cbn [dbind]. rewrite Z.add_0_r.
+      assert (Hin1 : In mt1 ms1) by (apply Hincl; now left).
+      pose proof (Hid1 mt1 Hin1) as Hr1. rewrite wrap_u16_small by lia.
+      destruct (D1 (fuel0 buf) (m_id (fst mt1)) Hfuel Hr1) as [Dfound Dnot].
+      assert (Hincl' : incl r ms1) by (intros x Hx; apply Hincl; now right).
+      unfold ins. cbn [fold_left].
+      destruct (in_dec Z.eq_dec (m_id (fst mt1)) (keys d)) as [Hk | Hk].
+      - destruct (Dfound Hk) as [w [p [mt2 [v [p' [Hs [Hin2 [Hid2 [Hv Hd]]]]]]]]].
+        rewrite Hs. unfold des_value. cbn [fst snd].
+        rewrite (Hty mt1 mt2 Hin1 Hin2 ltac:(congruence)). rewrite Hd. cbn [dbind].
+        rewrite Hv. change (map (fun mt0 : minfo * ty => (fst mt0, (snd mt0, des_ty V2 E buf (snd mt0)))) r)
+          with (cvD V2 E buf r).
+        exact (IH _ Hincl').
+      - destruct (Dnot Hk) as [p Hs]. rewrite Hs.
+        rewrite (lookup_not_key d _ Hk).
+        change (map (fun mt0 : minfo * ty => (fst mt0, (snd mt0, des_ty V2 E buf (snd mt0)))) r)
+          with (cvD V2 E buf r).
+        exact (IH _ Hincl'). }
+    exists s. apply Hmem. apply incl_refl.
 Qed.
